@@ -13,6 +13,7 @@ import (
 	"io"
 	"math"
 	"math/rand"
+	"os"
 	"reflect"
 	"testing"
 
@@ -21,6 +22,9 @@ import (
 	sch "github.com/parsyl/parquet/schema"
 	"replay/fcheck"
 )
+
+// thorough reports whether the check runs in the thorough tier (larger bounds).
+func thorough() bool { return os.Getenv("VERIF_TIER") == "thorough" }
 
 func sp(s string) *string   { return &s }
 func ip(i int32) *int32     { return &i }
@@ -698,6 +702,9 @@ func TestBoundedC06(t *testing.T) {
 		if name == "gzip" {
 			maxLen = 5
 		}
+		if thorough() {
+			maxLen += 3 // every history of length <= 10 (gzip: <= 8)
+		}
 		for n := 0; n <= maxLen; n++ {
 			for bits := 0; bits < 1<<n; bits++ {
 				h := make([]byte, n)
@@ -707,7 +714,11 @@ func TestBoundedC06(t *testing.T) {
 						h[k] = 'W'
 					}
 				}
-				for ps := 1; ps <= 3; ps++ {
+				maxPS := 3
+				if thorough() {
+					maxPS = 4
+				}
+				for ps := 1; ps <= maxPS; ps++ {
 					checkHistory(t, rs, string(h), ps, name, codecs[name])
 				}
 			}
@@ -854,7 +865,11 @@ func TestBoundedC02(t *testing.T) {
 func TestBoundedC04(t *testing.T) {
 	rs := recs(700, 4)
 	rng := rand.New(rand.NewSource(404))
-	for round := 0; round < 60; round++ {
+	rounds := 60
+	if thorough() {
+		rounds = 600
+	}
+	for round := 0; round < rounds; round++ {
 		n := []int{1, 2, 5, 9, 17, 40, 130, 700}[round%8]
 		batches := []int{n}
 		if round%3 == 1 && n > 2 {
@@ -934,7 +949,11 @@ func diffColumns(got, want map[string][]fcheck.Entry) string {
 }
 
 func TestBoundedC03(t *testing.T) {
-	for round := 0; round < 24; round++ {
+	rounds := 24
+	if thorough() {
+		rounds = 480
+	}
+	for round := 0; round < rounds; round++ {
 		n := []int{1, 2, 3, 7, 20, 60}[round%6]
 		rs := randomRecs(n, int64(300+round))
 		cname := []string{"uncompressed", "snappy", "gzip"}[round%3]
@@ -971,11 +990,15 @@ func sameRec(a, b Rec) bool {
 }
 
 func TestBoundedC01(t *testing.T) {
-	for round := 0; round < 39; round++ {
+	rounds := 39
+	if thorough() {
+		rounds = 400
+	}
+	for round := 0; round < rounds; round++ {
 		n := []int{0, 1, 2, 5, 9, 33, 120}[round%7]
 		cname := []string{"uncompressed", "snappy", "gzip"}[round%3]
 		ps := []int{1, 2, 3, 7, 1000}[round%5]
-		if round >= 36 {
+		if round >= 36 && round < 39 {
 			// pages of more than 504 levels (long bit-packed runs in the level streams)
 			n, ps = 1300, []int{1000, 2000, 600}[round-36]
 		}
